@@ -51,6 +51,45 @@ _ALL["C16"] = {
                   "observation only.",
 }
 
+_ALL["C08"] = {
+    "design_ref": "DESIGN.md §5 C08",
+    "technique": _TECH + "seeded secret histories across lines, line forms, quoting variants, $9$ re-encodings, files and failing "
+                         "files (storage faults biased onto the file that first introduces a reused secret); independent "
+                         "decoders recover the pseudonym index of every replacement in every durable output",
+    "level_text": "Seeded search over histories of the per-run lookup: identity -> pseudonym index must be a function and injective "
+                  "over all tokens of all durable outputs, including partial outputs of files that failed part-way.",
+    "level_note": "Trusted: passlib decoders/verifiers and the own $9$ decoder; template list validated by `check selftest-grammar`.",
+}
+_ALL["C07"] = {
+    "design_ref": "DESIGN.md §5 C07",
+    "technique": _TECH + "paired deterministic worlds (non-interference): the same plan executed twice with the secret values "
+                         "consistently renamed; outputs, dump and INFO+ log records compared, under injected faults and after "
+                         "unrelated earlier anonymizers in the same process",
+    "level_text": "Scoped claim: the history, log-channel, fault-path and leftover-process-state facets are decided by simulation "
+                  "for the sampled line forms and secret classes; the full line-form x secret-value space is sampled, not decided.",
+    "level_note": "Trusted: independent classifier pairs secrets by class and length; planted secrets are long and unique; D4 "
+                  "(`enable secret level 15 5 <hash>`) and D6 (all-digit secret before a reserved word) shapes are not generated.",
+}
+_ALL["C13"] = {
+    "design_ref": "DESIGN.md §5 C13",
+    "technique": _TECH + "every nondeterminism source behind a seam (entropy, random, hash-set order, clock, pid, buffer sizes, "
+                         "earlier activity in the same process) and varied between two executions of one scenario, with "
+                         "single-dimension attribution; real child interpreters with other PYTHONHASHSEEDs",
+    "level_text": "Seeded search over (scenario, varied dimensions, pre-history); byte-identical output tree and dump demanded; "
+                  "the no-salt scenario re-runs with the reported salt.",
+    "level_note": "Trusted: the seams cover the sources netconan uses today plus clock/pid/urandom as negative controls; a source "
+                  "introduced elsewhere is only seen by the real-interpreter runs.",
+}
+_ALL["C10"] = {
+    "design_ref": "DESIGN.md §5 C10",
+    "technique": _TECH + "word lists executed under every alternation order (hash-seed seam) and after unrelated earlier "
+                         "anonymizers in the same process (leftover global state), checked token by token",
+    "level_text": "Scoped claim: the 'all process hash seeds' and 'whatever ran earlier in this process' dimensions are decided by "
+                  "simulation for sampled word lists and lines; the line x word-list space itself is sampled.",
+    "level_note": "Trusted: built-in reserved list is read from the tree under test in a fresh simulated process; clause (3) only "
+                  "for non-overlapping lists.",
+}
+
 CHECKS = []
 
 NOT_APPLICABLE = [
@@ -71,8 +110,8 @@ NOTES = ("All claimed checks are exploration-level deterministic simulations (se
          "scratch copy (sensitivity self-test only). Exit 2 = harness error, never reported as success.")
 
 
-CLAIMED = ["C02", "C03", "C16", "C17"]
-PENDING = ["C07", "C08", "C10", "C12", "C13"]
+CLAIMED = ["C02", "C03", "C07", "C08", "C10", "C13", "C16", "C17"]
+PENDING = ["C12"]
 
 CHECKS[:] = [dict(_ALL[p], property_id=p) for p in CLAIMED]
 NOT_APPLICABLE += [{"property_id": p, "reason": "claimed in DESIGN.md; its check is not built yet in this commit (work in "
